@@ -28,7 +28,7 @@ def build_demo(demo, root, exe, asan=False):
 def run_demo(kdir, demo, root, exe, asan):
     """-> (returncode or None, error text).  A demo.sh (argument: library root) takes precedence over demo.c."""
     dsh = os.path.join(kdir, "demo.sh")
-    if os.path.exists(dsh) and "$1" in open(dsh, errors="replace").read():   # a demo.sh with a hard-wired path is of no use on a scratch copy
+    if os.path.exists(dsh) and __import__("re").search(r"\$\{?1", open(dsh, errors="replace").read()):   # a demo.sh with a hard-wired path is of no use on a scratch copy
         try:
             r = sh("cd %s && sh ./demo.sh %s" % (kdir, root), timeout=900)
         except subprocess.TimeoutExpired:
